@@ -33,6 +33,9 @@ fn docs(rng: &mut Rng, n: usize) -> Vec<J> {
     d.extend(gen::boundary_docs().into_iter().filter(|x| x.node_count() < 700).take(24));
     let mut cfg = gen::DocCfg::default();
     cfg.keys.push("xy".into());
+    for k in ["line\u{85}next", "\u{80}", "a\u{7f}\u{e9}", "\u{9f}b", "\u{feff}a", "a\u{ffff}", "\u{a0}", "\u{2028}x", "\u{e9}"] {
+        cfg.keys.push(k.into());
+    }
     cfg.strings.push("a b".into());
     for _ in 0..n {
         d.push(gen::random_doc(rng, &cfg));
@@ -81,9 +84,10 @@ pub fn run(ctx: &Ctx) -> Result<Evidence, String> {
     let docs: Vec<Doc> = docs(&mut rng, ctx.tier.pick(40, 400)).iter().map(Doc::new).collect();
     let mut asts: Vec<Query> = curated().iter().map(|t| analyze(t).ast.unwrap_or_else(|| panic!("curated C13 query does not parse: {}", t))).collect();
     asts.extend(gen::boundary_queries().iter().step_by(3).filter_map(|t| analyze(t).ast));
+    asts.extend(gen::composition_queries().iter().filter_map(|t| analyze(t).ast));
     let n_curated = asts.len();
     let mut qcfg = gen::QueryCfg::default();
-    qcfg.names = ["a", "b", "c", "k", "x y", "xy", "_1", "\u{e9}"].iter().map(|s| s.to_string()).collect();
+    qcfg.names = ["a", "b", "c", "k", "x y", "xy", "_1", "\u{e9}", "line\u{85}next", "\u{80}", "a\u{7f}\u{e9}", "\u{9f}b", "\u{feff}a", "a\u{ffff}", "\u{a0}", "\u{2028}x"].iter().map(|s| s.to_string()).collect();
     for _ in 0..ctx.tier.pick(1500, 250000) {
         asts.push(gen::random_query(&mut rng, &qcfg));
     }
